@@ -41,6 +41,8 @@ def rand_id(rng):
     r = rng.random()
     if r < 0.4:
         return str(rng.choice([0, 1, 2, 9, 10, 11, 99, 100, 2 ** 32, 2 ** 64 - 1, 2 ** 64 - 2, 2 ** 63]))
+    if r < 0.55:      # same stem, digit tails whose numeric and ASCII orders disagree (SemVer compares alphanumerics in ASCII order)
+        return rng.choice(["rc9", "rc10", "a1b", "a9", "a10", "beta11", "beta100", "build7", "build12", "rc1", "rc01", "x-9", "x-10", "9a", "10a"])
     return "".join(rng.choice("012abAB-zZ") for _ in range(rng.randint(1, 4))) or "a"
 
 
@@ -52,7 +54,7 @@ def fix_id(x):
 
 
 def rand_ver(rng):
-    core = ".".join(str(rng.choice([0, 1, 2, 10, 2 ** 64 - 1, 7])) for _ in range(3))
+    core = ".".join(str(rng.choice([0, 1, 2, 10, 2 ** 64 - 1, 7, 2 ** 32, 2 ** 32 + 1, 2 ** 32 - 1, 1700000000000, 1717171717171, 2 ** 63])) for _ in range(3))
     pre = None
     if rng.random() < 0.75:
         pre = ".".join(fix_id(rand_id(rng)) for _ in range(rng.randint(1, 5)))
